@@ -1,4 +1,5 @@
 import LP.Props.C16
+import LP.Props.C16Fm
 #print axioms LP.Infer.C16_complete_square
 #print axioms LP.Infer.C16_summand_le
 #print axioms LP.Infer.C16_between_roots
@@ -10,3 +11,5 @@ import LP.Props.C16
 #print axioms LP.Infer.C16_fm_le
 #print axioms LP.Infer.C16_fm_eq
 #print axioms LP.Infer.C16_fmCond_table
+#print axioms LP.Infer.C16_fm_sound
+#print axioms LP.Infer.C16_normCons_sound
